@@ -9,7 +9,24 @@ def T(shards=16, deadline_s=60, grace_s=60):
     return {"shards": shards, "deadline_s": deadline_s, "grace_s": grace_s}
 
 
+DASTARD_COMMON = ["zz_verif_common_test.go"]
+
 PROPS = {
+    "C01": {
+        "pkg": ".", "hdir": "dastard", "harness": DASTARD_COMMON + ["zz_verif_trig_test.go", "zz_verif_c01_test.go"], "test": "TestVerifC01",
+        "quick": T(16, 90), "thorough": T(16, 900),
+        "rule": "one execution = one (geometry, signedness, trigger configuration, control history, pulse set, block partition) run through the real "
+                "PrepareRun/ChangeTriggerState/ProcessSegments; non-trivial = at least one emitted record spans a block boundary",
+        "assumptions": ["decimation off", "structured streams (baseline + position-dependent ripple + 1-2 pulses), not all 2^16n value sequences",
+                        "block time stamps mutually consistent (DESIGN 7.13)"],
+    },
+    "C02": {
+        "pkg": ".", "hdir": "dastard", "harness": DASTARD_COMMON + ["zz_verif_trig_test.go", "zz_verif_c02_test.go"], "test": "TestVerifC02",
+        "quick": T(16, 90), "thorough": T(16, 900),
+        "rule": "as C01 without edge-multi; oracle = independent scan of the ground-truth stream with the edge/level/auto criteria; "
+                "non-trivial = a criterion sample lies within one record length of a block boundary",
+        "assumptions": ["criteria as defined by the code (DESIGN 7.1), dead time inclusive", "completeness only demanded where decidable from delivered data (DESIGN 7.2)"],
+    },
     "C18": {
         "pkg": "ringbuffer", "hdir": "ringbuffer", "harness": ["zz_verif_c18_test.go"], "test": "TestVerifC18",
         "quick": T(16, 60), "thorough": T(16, 600),
